@@ -450,6 +450,10 @@ func (sigPoK *SigPoK) fromBytes(c *math.Curve, bytes []byte) error {
 		return fmt.Errorf("malformed proof of signature knowledge: %v", err)
 	}
 
+	if len(rspok.Data) != 5 {
+		return fmt.Errorf("malformed proof of signature knowledge: %d elements instead of 5", len(rspok.Data))
+	}
+
 	sigPoK.ψ = PoKofSignaturePoCorrectForm{}
 	if err := sigPoK.ψ.fromBytes(c, rspok.Data[0]); err != nil {
 		return err
@@ -492,6 +496,10 @@ func (sigPoK *SigPoK) Bytes() []byte {
 }
 
 func (sigPoK *SigPoK) Verify(pp *PP, pk PK) error {
+	if len(sigPoK.ψ.x) != len(pk.Y) {
+		return fmt.Errorf("proof is for messages of length %d but public key is for messages of length %d", len(sigPoK.ψ.x), len(pk.Y))
+	}
+
 	if err := sigPoK.ψ.Verify(pp.c, sigPoK.ν, sigPoK.hε, pp.g2, pk.X, sigPoK.κ, pk.Y); err != nil {
 		return fmt.Errorf("pairing argument is not well formed: %v", err)
 	}
